@@ -32,10 +32,12 @@ Step(e) ==
     [] e.op = "touch"   -> Touch(e.f) /\ ok' = (ok /\ clock' = e.t) /\ why' = why
     [] e.op = "delete"  -> Delete(e.f) /\ ok' = (ok /\ clock' = e.t) /\ why' = why
     [] e.op = "ignored" -> TouchIgnored(e.f) /\ ok' = (ok /\ clock' = e.t) /\ why' = why
+    [] e.op = "register" -> RegisterNext /\ ok' = ok /\ why' = why
+    [] e.op = "setopt"  -> SetOption(e.v = 1) /\ ok' = ok /\ why' = why
     [] e.op = "load"    ->
          /\ Load(e.force = 1)
          /\ LET specDec == Decisions(st'.rules)
-                layered == Decisions(FreshPolicy(fs, dirs, EnforceNew))
+                layered == Decisions(FreshPolicyN(fs, dirs, enfnew, nreg))
                 c10 == Obs(e.dec) = specDec            \* long-lived enforcer follows the specification
                 c09 == Obs(e.fresh) = layered          \* a fresh enforcer computes the layering sentence
                 eq  == DefaultMode => Obs(e.dec) = Obs(e.fresh)       \* C10 itself (default overwrite mode)
@@ -49,7 +51,7 @@ Step(e) ==
                 scope == e.scopeblk = 1
                 \* beyond the listed properties: the deprecation warnings of this call (recorded only
                 \* when the harness switched them on)
-                warn == e.warnon = 1 => e.warn = LoadWarnings(st, fs, dirs, e.force = 1, EnforceNew, Overwrite)
+                warn == e.warnon = 1 => e.warn = LoadWarnings(st, fs, dirs, e.force = 1, enfnew, Overwrite, nreg)
             IN /\ ok' = (ok /\ c10 /\ c09 /\ eq /\ e.raised = 0 /\ idem /\ frozen /\ scope /\ warn)
                /\ why' = IF ~ok THEN why
                          ELSE IF e.raised = 1 THEN "load-or-enforce-raised"
